@@ -6,6 +6,7 @@
 From Coq Require Import QArith.
 From stdpp Require Import strings gmap sets.
 From CG Require Export Base.Cases Model.Sensitivity Proofs.SensitivityProofs.
+From CG Require Model.Logic.
 Open Scope string_scope.
 Open Scope nat_scope.
 
@@ -84,6 +85,9 @@ Definition agree (k : case) : bool :=
       match sp with
       | [] => true
       | _ => bool_decide (clog2 (length sp) = Ok cl.1) && bool_decide (clog2 (length sp + 1) = Ok cl.2) &&
+             (* the recorded popcount circuit is the one C13's model builds (so sensitivity_transform_spec_popcount applies) and
+                it has the output bits sen_out reads *)
+             bool_decide (rmap c_g (Logic.popcount (length sp)) = Ok (c_g PC)) && (cl.2 <=? size (outputs (c_g PC))) &&
              bool_decide (bins = (λ k, int_to_bin_le k cl.1) <$> seq 0 (S (length sp)))
       end &&
       let solve : list (string * bool) → bool :=
